@@ -76,12 +76,50 @@ class PyValidated(TraitType):
 
 
 def _owner_class(trait, falsy):
-    ns = {"c": trait}
+    ns = {"c": trait} if trait is not None else {}
     if falsy:
         # an owner that is falsy (defines __len__ / __bool__): presence, not truthiness, of the owner is what matters
         ns["__bool__"] = lambda self: False
         ns["__len__"] = lambda self: 0
     return type("Owner", (HasTraits,), ns)
+
+
+def _make_owner(trait_factory, falsy, added, initial):
+    """the owner object with trait 'c' (declared on the class, or ADDED to the instance with add_trait), plus - for added traits -
+    foreign twins whose own items listeners must stay silent: another object with an added 'c', and a second added trait 'c2' on
+    the same object (dynamically added container traits must not share their items-event machinery)"""
+    foreign = []
+    if not added:
+        o = _owner_class(trait_factory(), falsy)()
+        o.c = initial
+        return o, foreign
+    o = _owner_class(None, falsy)()
+    o.add_trait("c", trait_factory())
+    o.add_trait("c2", trait_factory())
+    twin = _owner_class(None, falsy)()
+    twin.add_trait("c", trait_factory())
+    o.c = initial
+    twin.c = type(initial)(initial)
+    o.c2 = type(initial)(initial)
+    twin.on_trait_change(lambda obj, name, old, new: foreign.append(("twin", name)), "c_items")
+    o.on_trait_change(lambda obj, name, old, new: foreign.append(("c2", name)), "c2_items")
+    o._keep_twin = twin
+    return o, foreign
+
+
+def _attach_legacy(o, legacy, other, route):
+    """route 'named': on_trait_change(h, 'c_items'); route 'anytrait': only an object-level handler registered without a name
+    (the items event reaches it through the object's own notifier list)"""
+    if route == "named":
+        o.on_trait_change(legacy, "c_items")
+        o.on_trait_change(lambda obj, name, old, new: other.append(name), "c")
+    else:
+        def anyh(obj, name, old, new):
+            if name == "c_items":
+                legacy(obj, name, old, new)
+            elif name == "c":
+                other.append(name)
+        o.on_trait_change(anyh)
 
 
 def _same_items(a, b):
@@ -99,11 +137,9 @@ def _same_pairs(a, b):
     return len(a) == len(b) and all(any(k is k2 and v is v2 for k2, v2 in b) for k, v in a)
 
 
-def list_factory(falsy=False):
+def list_factory(falsy=False, route="named", added=False):
     def factory(ex, items, validator, notifier):
-        Owner = _owner_class(List(PyValidated(validator)), falsy)
-        o = Owner()
-        o.c = list(items)
+        o, foreign = _make_owner(lambda: List(PyValidated(validator)), falsy, added, list(items))
         other = []
         kept = []
         seen = [[], []]
@@ -112,8 +148,7 @@ def list_factory(falsy=False):
             kept.append((new, new.index, list(new.removed), list(new.added)))
             notifier(obj.c, new.index, new.removed, new.added)
 
-        o.on_trait_change(legacy, "c_items")
-        o.on_trait_change(lambda obj, name, old, new: other.append(name), "c")
+        _attach_legacy(o, legacy, other, route)
         o.observe(lambda e: seen[0].append((e.index, list(e.removed), list(e.added))), "c:items")
         o.observe(lambda e: seen[1].append((e.index, list(e.removed), list(e.added))), "c:items")
         xs = o.c
@@ -121,6 +156,7 @@ def list_factory(falsy=False):
         def extra(ex, exc_t, tl):
             ex.check(o.c is xs, "the trait still holds the same TraitListObject")
             ex.check(other == [], "no whole-value notification for an in-place operation")
+            ex.check(foreign == [], "items listeners of other dynamically added container traits stay silent")
             for lst in seen:
                 ex.check(len(lst) == len(kept), "every observe handler on the items receives exactly one event per change notification")
             for i, (ev, idx, rem, add) in enumerate(kept):
@@ -145,11 +181,9 @@ def _same_index(a, b):
     return bool(a == b)
 
 
-def dict_factory(falsy=False):
+def dict_factory(falsy=False, route="named", added=False):
     def factory(ex, keys, vals, kv, vv, notifier):
-        Owner = _owner_class(Dict(PyValidated(kv), PyValidated(vv)), falsy)
-        o = Owner()
-        o.c = dict(zip(keys, vals))
+        o, foreign = _make_owner(lambda: Dict(PyValidated(kv), PyValidated(vv)), falsy, added, dict(zip(keys, vals)))
         other = []
         kept = []
         seen = [[], []]
@@ -158,8 +192,7 @@ def dict_factory(falsy=False):
             kept.append((new, list(new.removed.items()), list(new.added.items()), list(new.changed.items())))
             notifier(obj.c, new.removed, new.added, new.changed)
 
-        o.on_trait_change(legacy, "c_items")
-        o.on_trait_change(lambda obj, name, old, new: other.append(name), "c")
+        _attach_legacy(o, legacy, other, route)
         o.observe(lambda e: seen[0].append((list(e.removed.items()), list(e.added.items()))), "c:items")
         o.observe(lambda e: seen[1].append((list(e.removed.items()), list(e.added.items()))), "c:items")
         d = o.c
@@ -167,6 +200,7 @@ def dict_factory(falsy=False):
         def extra(ex, exc_t, td):
             ex.check(o.c is d, "the trait still holds the same TraitDictObject")
             ex.check(other == [], "no whole-value notification for an in-place operation")
+            ex.check(foreign == [], "items listeners of other dynamically added container traits stay silent")
             for lst in seen:
                 ex.check(len(lst) == len(kept), "every observe handler on the items receives exactly one event per change notification")
             for i, (ev, rem, add, chg) in enumerate(kept):
@@ -185,11 +219,9 @@ def dict_factory(falsy=False):
     return factory
 
 
-def set_factory(falsy=False):
+def set_factory(falsy=False, route="named", added=False):
     def factory(ex, elems, val, notifier):
-        Owner = _owner_class(Set(PyValidated(val)), falsy)
-        o = Owner()
-        o.c = set(elems)
+        o, foreign = _make_owner(lambda: Set(PyValidated(val)), falsy, added, set(elems))
         other = []
         kept = []
         seen = [[], []]
@@ -198,8 +230,7 @@ def set_factory(falsy=False):
             kept.append((new, list(new.removed), list(new.added)))
             notifier(obj.c, new.removed, new.added)
 
-        o.on_trait_change(legacy, "c_items")
-        o.on_trait_change(lambda obj, name, old, new: other.append(name), "c")
+        _attach_legacy(o, legacy, other, route)
         o.observe(lambda e: seen[0].append((list(e.removed), list(e.added))), "c:items")
         o.observe(lambda e: seen[1].append((list(e.removed), list(e.added))), "c:items")
         st = o.c
@@ -207,6 +238,7 @@ def set_factory(falsy=False):
         def extra(ex, exc_t, ts):
             ex.check(o.c is st, "the trait still holds the same TraitSetObject")
             ex.check(other == [], "no whole-value notification for an in-place operation")
+            ex.check(foreign == [], "items listeners of other dynamically added container traits stay silent")
             for lst in seen:
                 ex.check(len(lst) == len(kept), "every observe handler on the items receives exactly one event per change notification")
             for i, (ev, rem, add) in enumerate(kept):
@@ -219,3 +251,70 @@ def set_factory(falsy=False):
         st._keepalive = o
         return st, extra
     return factory
+
+
+# ---- one definition object used for several attributes / several instances: values are copied, never shared ----------------
+SHARING_HOWS = ["a.y = a.x", "b.x = a.x", "b.trait_set(**a.trait_get('x'))", "b = a.clone_traits()", "b = copy.copy(a)",
+                "b = copy.deepcopy(a)", "b.copy_traits(a)"]
+
+
+def sharing_harness(kind):
+    """kind: list | dict | set.  x and y are declared from ONE shared trait definition; the value of one attribute / instance is
+    handed to another in every documented way; afterwards the two containers are distinct objects whose mutations and items
+    events do not leak into each other"""
+    import copy as _copy
+    from traits.api import Int, Str
+
+    def harness(ex):
+        shared = {"list": lambda: List(Int), "dict": lambda: Dict(Str, Int), "set": lambda: Set(Int)}[kind]()
+        A = type("A", (HasTraits,), {"x": shared, "y": shared})
+        init = {"list": [1, 2], "dict": {"k": 1}, "set": {1, 2}}[kind]
+        a, b = A(), A()
+        a.x = init
+        how = SHARING_HOWS[ex.choice("how", len(SHARING_HOWS))]
+        log = []
+        if how == "a.y = a.x":
+            a.y = a.x
+            tgt_owner, tgt_name = a, "y"
+        elif how == "b.x = a.x":
+            b.x = a.x
+            tgt_owner, tgt_name = b, "x"
+        elif how.startswith("b.trait_set"):
+            b.trait_set(**a.trait_get("x"))
+            tgt_owner, tgt_name = b, "x"
+        elif how == "b = a.clone_traits()":
+            b = a.clone_traits()
+            tgt_owner, tgt_name = b, "x"
+        elif how == "b = copy.copy(a)":
+            b = _copy.copy(a)
+            tgt_owner, tgt_name = b, "x"
+        elif how == "b = copy.deepcopy(a)":
+            b = _copy.deepcopy(a)
+            tgt_owner, tgt_name = b, "x"
+        else:
+            b.copy_traits(a)
+            tgt_owner, tgt_name = b, "x"
+        a.on_trait_change(lambda: log.append("a.x_items"), "x_items")
+        tgt_owner.on_trait_change(lambda: log.append("tgt_items"), tgt_name + "_items")
+        src, tgt = a.x, getattr(tgt_owner, tgt_name)
+        ex.check(tgt is not src, "the value handed to another attribute / instance is a copy: two distinct container objects")
+        ex.check(type(tgt) is type(src) and tgt == src, "... of the same class and contents")
+        add = {"list": lambda c, v: c.append(v), "dict": lambda c, v: c.__setitem__("n%d" % v, v), "set": lambda c, v: c.add(v)}[kind]
+        snap = _copy.copy(list(tgt) if kind != "dict" else dict(tgt))
+        add(src, 7)
+        ex.check((list(tgt) if kind != "dict" else dict(tgt)) == snap, "mutating the source leaves the copy alone")
+        ex.check(log == ["a.x_items"], "... and notifies the source's items listeners only, once")
+        del log[:]
+        snap = _copy.copy(list(src) if kind != "dict" else dict(src))
+        add(tgt, 8)
+        ex.check((list(src) if kind != "dict" else dict(src)) == snap, "mutating the copy leaves the source alone")
+        ex.check(log == ["tgt_items"], "... and notifies the copy's own items listeners, once")
+        bad = {"list": lambda c: c.append("x"), "dict": lambda c: c.__setitem__("k", "x"), "set": lambda c: c.add("x")}[kind]
+        try:
+            bad(tgt)
+            rej = False
+        except TraitError:
+            rej = True
+        ex.check(rej, "the copy validates")
+        return {"how": how}
+    return harness
